@@ -10,6 +10,7 @@ CONSTANTS
   MaxFaults = 1
   StoreMetaFirst = FALSE
   KillWaits = TRUE
+  GcProtectsMergeSources = TRUE
   ReplaceStaleDel = TRUE
 INVARIANT CrashSafe
 CHECK_DEADLOCK FALSE
